@@ -459,3 +459,103 @@ Proof.
   intros N. apply expected_run; [apply wf_init|apply tempsok_init|exact N|].
   intros s G. destruct k; discriminate.
 Qed.
+
+(* ------------------------------------------------------------------ the delivery log as a step clause
+   Judged on one observed step alone: every queue of every session that exists afterwards holds what it held
+   before, minus what this step dequeued from its front, plus what the specification says this step enqueues
+   (decided at Publish time from the subscriptions of that moment) — whatever Subscribe / Unsubscribe did before
+   or does later; a Dequeue that returns a message returns the head of the chosen queue. *)
+Definition delivery_ok (st : state) (o : op) (r : result) (st' : state) : bool :=
+  (match o with OPublish _ m _ => negb (name_ok (m_topic m)) | _ => false end) ||
+  (forallb (fun e =>
+     let k := fst e in let s' := snd e in
+     match get_session st k with
+     | Some s =>
+         forallb (fun temp =>
+           msgs_eqb (queue temp s')
+                    (if reset_event k temp st o r then []
+                     else skipn (deq_count k temp st o r) (queue temp s) ++ enq_event k temp st o r))
+           [true; false]
+     | None => is_nil (s_tq s') && is_nil (s_sq s')
+     end) (sessions st') &&
+   match o, r with
+   | ODequeue c t, RMsg m' =>
+       match session_of st c with
+       | Some (_, s) =>
+           match queue t s with
+           | m :: _ => bytes_eqb (m_topic m') (m_topic m) && bytes_eqb (m_payload m') (m_payload m) &&
+                       Bool.eqb (m_retain m') (m_retain m)
+           | [] => false
+           end
+       | None => false
+       end
+   | _, _ => true
+   end).
+
+Theorem step_delivery_ok st o :
+  wf st -> TempsOk st -> let (r, st') := step st o in delivery_ok st o r st' = true.
+Proof.
+  intros W T. destruct (step st o) as [r st'] eqn:E. unfold delivery_ok.
+  destruct (match o with OPublish _ m _ => negb (name_ok (m_topic m)) | _ => false end) eqn:Hn0; [reflexivity|].
+  cbn [orb].
+  assert (Hn : match o with OPublish _ m _ => name_ok (m_topic m) = true | _ => True end).
+  { destruct o; auto. apply negb_false_iff in Hn0. exact Hn0. }
+  assert (W' : wf st') by (pose proof (wf_step st o W) as X; rewrite E in X; exact X).
+  apply andb_true_iff; split.
+  - apply forallb_forall. intros [k s'] Hin. cbn [fst snd].
+    pose proof (sessions_get st' k s' W' Hin) as G'.
+    destruct (get_session st k) as [s|] eqn:G.
+    + pose proof (queue_step st o true k s W T Hn G) as X1. pose proof (queue_step st o false k s W T Hn G) as X2.
+      rewrite E in X1, X2. cbn [forallb]. rewrite (X1 s' G'), (X2 s' G'), !msgs_eqb_refl. reflexivity.
+    + pose proof (created_step st o k T G s') as X. rewrite E in X. destruct (X G') as [-> ->]. reflexivity.
+  - destruct o as [c id clean|t|c|c subs b|c fs|c m got|c t|c|]; try (destruct r; reflexivity).
+    cbn [step] in E. unfold dequeue in E. destruct (session_of st c) as [[k s]|]; [|injection E as <- _; reflexivity].
+    destruct t; cbn [queue].
+    + destruct (s_tq s) as [|m q]; injection E as <- _; [reflexivity|].
+      pose proof (apply_qos_capped (s_subs s) m) as X. unfold qos_capped in X.
+      rewrite !andb_true_iff in X. destruct X as [X _]. rewrite !andb_true_iff. exact X.
+    + destruct (s_sq s) as [|m q]; injection E as <- _; [reflexivity|].
+      pose proof (apply_qos_capped (s_subs s) m) as X. unfold qos_capped in X.
+      rewrite !andb_true_iff in X. destruct X as [X _]. rewrite !andb_true_iff. exact X.
+Qed.
+
+(* along every history *)
+Theorem delivery_along cap ops :
+  Forall (fun x => let '(st, o, r, st') := x in delivery_ok st o r st' = true) (trace (init cap) ops).
+Proof.
+  assert (G : forall ops st, wf st -> TempsOk st ->
+              Forall (fun x => let '(st, o, r, st') := x in delivery_ok st o r st' = true) (trace st ops)).
+  { clear. induction ops as [|o ops IH]; intros st W T; cbn [trace]; [constructor|].
+    pose proof (step_delivery_ok st o W T) as X. pose proof (wf_step st o W) as W1. pose proof (tempsok_step st o T) as T1.
+    destruct (step st o) as [r st1]. cbn [snd] in *. constructor; [exact X|apply IH; assumption]. }
+  apply G; [apply wf_init|apply tempsok_init].
+Qed.
+
+(* the two facts behind it, on the model functions themselves: Unsubscribe changes no queue; Dequeue returns the
+   head of the chosen queue (QoS capped) whatever the subscriptions are *)
+Theorem unsubscribe_keeps_queues st c fs k s :
+  get_session st k = Some s ->
+  exists s', get_session (snd (unsubscribe st c fs)) k = Some s' /\ s_tq s' = s_tq s /\ s_sq s' = s_sq s.
+Proof.
+  intros G. unfold unsubscribe. destruct (session_of st c) as [[k0 s0]|] eqn:S; [|exists s; auto].
+  cbn [snd]. rewrite get_put. destruct (skey_eqb k k0) eqn:E; [|exists s; auto].
+  apply skey_eqb_eq in E; subst k0. rewrite (session_of_get _ _ _ _ S) in G. injection G as <-.
+  eexists; split; [reflexivity|auto].
+Qed.
+
+Theorem dequeue_returns_head st c temp k s m rest :
+  session_of st c = Some (k, s) -> queue temp s = m :: rest ->
+  exists m', fst (dequeue st c temp) = RMsg m' /\
+             m_topic m' = m_topic m /\ m_payload m' = m_payload m /\ m_retain m' = m_retain m /\ m_qos m' <= m_qos m /\
+             exists s', get_session (snd (dequeue st c temp)) k = Some s' /\ queue temp s' = rest /\
+                        queue (negb temp) s' = queue (negb temp) s /\ s_subs s' = s_subs s.
+Proof.
+  intros S Q. unfold dequeue. rewrite S.
+  assert (A : forall subs, m_topic (apply_qos subs m) = m_topic m /\ m_payload (apply_qos subs m) = m_payload m /\
+                           m_retain (apply_qos subs m) = m_retain m /\ m_qos (apply_qos subs m) <= m_qos m).
+  { intros subs. unfold apply_qos. destruct (pick_sub subs (m_topic m)) as [[f q]|]; [|repeat split; lia].
+    destruct (q <? m_qos m) eqn:L; [apply N.ltb_lt in L; cbn; repeat split; lia|repeat split; lia]. }
+  destruct temp; cbn [queue negb] in *; rewrite Q; cbn [fst snd];
+    (eexists; split; [reflexivity|]); destruct (A (s_subs s)) as (A1 & A2 & A3 & A4); repeat split; auto;
+    (eexists; split; [rewrite get_put, skey_eqb_refl; reflexivity|repeat split]).
+Qed.
